@@ -14,7 +14,7 @@ BUILTINS = {'len', 'int', 'str', 'bool', 'min', 'max', 'sum', 'abs', 'list', 'tu
 SPEC_BUILTINS = {'forall', 'exists', 'implies', 'iff', 'old', 'ite', 'seq_get', 'subset', 'setof', 'distinct', 'is_prefix',
                  'is_none', 'some', 'emptyset', 'set_add', 'set_remove', 'seq_take', 'seq_drop', 'index_of', 'card',
                  'str_len', 'str_at', 'str_contains', 'str_indexof', 'str_prefixof', 'str_suffixof', 'str_sub',
-                 'str_replace_first', 'domain', 'map_get', 'unchanged', 'in_re', 'int_to_str', 'str_to_int', 'str_lt', 'str_le'}
+                 'str_replace_first', 'domain', 'map_get', 'unchanged', 'map_same_except', 'heap_same', 'heap_same_except', 'map_same', 'in_re', 'int_to_str', 'str_to_int', 'str_lt', 'str_le'}
 
 def _len_term(ex, v):
     ty = v.ty
@@ -24,6 +24,8 @@ def _len_term(ex, v):
     if isinstance(ty, TMap): return v.t[2]
     if isinstance(ty, TTuple): return z3.IntVal(len(v.t))
     if isinstance(ty, TRec): return z3.IntVal(len(ty.fields))
+    if isinstance(ty, TRef) and ty.universal:
+        ln = z3.Function('obj_len', sort_of(ty), z3.IntSort())(v.t); ex.assume(ln >= 0); return ln
     raise Unsupported('len of %r' % ty)
 
 def call_builtin(ex, name, args, kwargs, node):
@@ -174,6 +176,9 @@ def _isinstance1(ex, obj, c):
         raise Unsupported('isinstance(_, %s)' % tn)
     if isinstance(c, E.ExcClass):
         if ty is TExc: return z3.BoolVal(ex.exc_isinstance(obj.t.cls, c.name))
+        if isinstance(ty, TOpt): return z3.And(z3.Not(obj.t[0]), _isinstance1(ex, obj.t[1], c))
+        if isinstance(ty, TRef) and ty.universal:
+            return z3.Function('isinstance_' + c.name, sort_of(ty), z3.BoolSort())(obj.t)
         return z3.BoolVal(False)
     if isinstance(c, E.ClassRef):
         if isinstance(ty, TOpt):
@@ -182,6 +187,8 @@ def _isinstance1(ex, obj, c):
         cty = ex.type_for_class(c.rel, c.name)
         if cty is not None and cty == ty: return z3.BoolVal(True)
         if isinstance(ty, (TEnum, TRec)) or ty in (TInt, TBool, TStr, TFloat): return z3.BoolVal(False)
+        if isinstance(ty, TRef) and ty.universal:
+            return z3.Function('isinstance_' + c.name, sort_of(ty), z3.BoolSort())(obj.t)
         if isinstance(ty, TRef):
             return ex.vf.subclass_test(ex, obj, c)
         raise Unsupported('isinstance(%r, %s)' % (ty, c.name))
@@ -532,6 +539,22 @@ def call_spec(ex, name, args, kwargs, node):
         m, k = a; return unpack(z3.Select(m.t[1], pack(coerce(k, m.ty.k))), m.ty.v)
     if name == 'seq_get':
         return seq_get(a[0], coerce(a[1], TInt).t)
+    # ---- quantifier-free frame conditions (array store form)
+    if name == 'map_same_except':
+        m1, m0, k = a; kt = pack(ex.co(k, m1.ty.k))
+        return vbool(z3.And(m1.t[0] == z3.Store(m0.t[0], kt, z3.Select(m1.t[0], kt)), m1.t[1] == z3.Store(m0.t[1], kt, z3.Select(m1.t[1], kt))))
+    if name == 'map_same':
+        m1, m0 = a
+        return vbool(z3.And(m1.t[0] == m0.t[0], m1.t[1] == m0.t[1], m1.t[2] == m0.t[2]))
+    if name in ('heap_same', 'heap_same_except'):
+        key = z3.simplify(a[0].t).as_string()
+        cls, fld = key.split('.'); fty = w.ty(w.classes[cls][fld])
+        if ex.old is None: raise Unsupported('heap_same without a pre-state')
+        cur = ex.heap_field(cls, fld, fty)
+        if key not in ex.old.heap: ex.old.heap[key] = ex.vf.heap0(key, fty)
+        old = ex.old.heap[key]
+        if name == 'heap_same': return vbool(cur == old)
+        return vbool(cur == z3.Store(old, a[1].t, z3.Select(cur, a[1].t)))
     if name == 'emptyset':
         ty = a[0].ty if isinstance(a[0], E.TypeObj) else None
         if ty is None: raise Unsupported('emptyset(Type)')
